@@ -1039,6 +1039,29 @@ class Interp:
             inner = env.copy()
             self.stmt(n["body"], inner)
             return
+        if k == "mcall" and n.get("m") in ("map", "map_or", "map_or_else", "and_then", "is_some_and", "filter",
+                                           "is_none_or", "inspect") and \
+                any(isinstance(a, dict) and a.get("k") == "closure" for a in n.get("args") or []):
+            # opt.map(|x| ..): inside the closure x is what the receiver holds when it is Some
+            self.expr(n.get("recv"), env)
+            pp = self.pos_of(n.get("recv"), env)
+            for a in n.get("args") or []:
+                if isinstance(a, dict) and a.get("k") == "closure":
+                    inner = env.copy()
+                    ps_ = a.get("params") or []
+                    if len(ps_) == 1:
+                        q = ps_[0]
+                        while isinstance(q, dict) and q.get("k") == "pref":
+                            q = q.get("pat")
+                        if isinstance(q, dict) and q.get("k") == "bind":
+                            if pp and pp[0] != "*":
+                                inner.pos[q["id"]] = pp
+                            f_ = self.facts_of(n.get("recv"), env)
+                            inner.f[q["name"]] = Facts_(ascii=f_.ascii, digits=f_.digits, minlen=f_.minlen)
+                    self.stmt(a["body"], inner)
+                else:
+                    self.expr(a, env)
+            return
         if k == "index":
             self.index_site(n, env)
         if k == "mcall" and n.get("m") in ("unwrap", "expect"):
@@ -1150,6 +1173,14 @@ class Interp:
             return self.lost_track(e.get("l"), depth + 1) or self.lost_track(e.get("r"), depth + 1)
         if k == "mcall" and e.get("m") in ("unwrap", "expect", "unwrap_or", "unwrap_or_default", "min", "max"):
             return self.lost_track(e.get("recv"), depth + 1)
+        if k == "try":
+            return self.lost_track(e.get("e"), depth + 1)
+        if k in ("call", "mcall"):
+            cal = callee(e)
+            hb = self.F.body_by_path.get(cal)
+            if hb is not None and not hb.get("exp") and "body" in hb and ("posfn:" + cal) not in self.sum \
+                    and not cal.startswith(("std::", "core::", "alloc::")):
+                return True
         return False
 
     def vec_site(self, n, env):
